@@ -16,7 +16,7 @@ import (
 	"verif/harness/internal/stats"
 )
 
-const ruleDup = "rapid: 2-4 goroutines released together through a spin barrier issue the SAME Broker call with the same arguments (RemovePipelineAndNodes, RemovePipeline, RemoveNode, RegisterPipeline, RegisterNode, Send, Reopen, threshold setters) or a drawn mix of them, 5-30 barrier steps per case, the pipeline being re-created single-threaded before every step, each step under the watchdog and a final writing probe call; oracle = every call returns within the bound, a miss is a violation only if the goroutine dump shows a library goroutine blocked on a lock; non-trivial = >=1 step of simultaneous identical removals or registrations; distinct = case descriptor"
+const ruleDup = "rapid: 2-4 goroutines released together through a spin barrier issue the SAME Broker call with the same arguments (the pipeline lists its filter 1, 300 or 2000 times, which stretches flattening and validation) (RemovePipelineAndNodes, RemovePipeline, RemoveNode, RegisterPipeline, RegisterNode, Send, Reopen, threshold setters) or a drawn mix of them, 5-30 barrier steps per case, the pipeline being re-created single-threaded before every step, each step under the watchdog and a final writing probe call; oracle = every call returns within the bound, a miss is a violation only if the goroutine dump shows a library goroutine blocked on a lock; non-trivial = >=1 step of simultaneous identical removals or registrations; distinct = case descriptor"
 
 var dupOps = []string{"rpan", "rpan", "rmpipe", "rmnode", "regpipe", "regpipe-deny", "regnode", "regnode-deny", "send", "reopen", "thr", "mixed", "mixed"}
 var mixOps = []string{"rpan", "rmpipe", "rmnode", "regpipe", "regpipe-deny", "regnode", "regnode-deny", "send", "reopen", "thr", "isany"}
@@ -28,6 +28,7 @@ func TestC12ConcurrentDuplicates(t *testing.T) {
 		g := rapid.IntRange(2, 4).Draw(t, "goroutines")
 		steps := rapid.SliceOfN(rapid.SampledFrom(dupOps), 5, 30).Draw(t, "steps")
 		fresh := rapid.SliceOfN(rapid.Bool(), len(steps), len(steps)).Draw(t, "freshPipeline")
+		long := rapid.SampledFrom([]int{1, 1, 1, 300, 2000}).Draw(t, "listedTimes") // the pipeline lists its filter this many times: flattening and validating take longer
 		stepNo := 0
 		mix := make([][]string, len(steps))
 		for i, s := range steps {
@@ -39,9 +40,16 @@ func TestC12ConcurrentDuplicates(t *testing.T) {
 		w := &nodes.World{}
 		ctx := context.Background()
 		mk := func(id string, nt eventlogger.NodeType) *nodes.N {
+			if long > 1 {
+				return &nodes.N{W: w, Name: id, ID: id, T: nt}
+			}
 			return &nodes.N{W: w, Name: id, ID: id, T: nt, OnType: func(*nodes.N) { runtime.Gosched() }} // Type() is a scheduling point inside validation
 		}
-		pipe := eventlogger.Pipeline{PipelineID: "p", EventType: "T", NodeIDs: []eventlogger.NodeID{"f", "m", "s"}}
+		pipe := eventlogger.Pipeline{PipelineID: "p", EventType: "T"}
+		for i := 0; i < long; i++ {
+			pipe.NodeIDs = append(pipe.NodeIDs, "f")
+		}
+		pipe.NodeIDs = append(pipe.NodeIDs, "m", "s")
 		ensure := func() {
 			if fresh[stepNo] {
 				_ = b.RemovePipeline("T", "p") // the next burst meets a pipeline id whose policy is the default again
@@ -90,7 +98,7 @@ func TestC12ConcurrentDuplicates(t *testing.T) {
 			for _, x := range bl {
 				sb.WriteString(x.Text + "\n\n")
 			}
-			t.Fatalf("VIOLATION C12: %s did not return within %s (broker permanently locked)\ncase: goroutines=%d steps=%v mixes=%v\nblocked library goroutines:\n%s", what, bound, g, steps, mix, sb.String())
+			t.Fatalf("VIOLATION C12: %s did not return within %s (broker permanently locked)\ncase: goroutines=%d listedTimes=%d steps=%v mixes=%v\nblocked library goroutines:\n%s", what, bound, g, long, steps, mix, sb.String())
 		}
 		dupRemovals := 0
 		for i, s := range steps {
@@ -132,11 +140,11 @@ func TestC12ConcurrentDuplicates(t *testing.T) {
 		if !exec(func() { _ = b.RegisterNode("probe", mk("probe", eventlogger.NodeTypeFilter)) }) {
 			fail("the final probe call")
 		}
-		sec.Case(dupRemovals > 0, fmt.Sprintf("goroutines=%d steps=%s", g, strings.Join(steps, ",")), fmt.Sprintf("goroutines=%d", g))
+		sec.Case(dupRemovals > 0, fmt.Sprintf("goroutines=%d listedTimes=%d steps=%s", g, long, strings.Join(steps, ",")), fmt.Sprintf("goroutines=%d", g), fmt.Sprintf("listedTimes=%d", long))
 	})
 }
 
-const ruleDeep = "rapid: (a) a non-root node whose Process sends a nested event of its own type on the same Broker with the context it was given, to a drawn depth of 2-300; (b) 150-400 goroutines each sending an event whose non-root node re-sends once; (c) an unreferenced node whose Close sends an event is overwritten by RegisterNode, or removed; all under the watchdog, followed by a writing probe call; oracle = every call returns within the bound; non-trivial = depth >= 130 or >= 150 concurrent re-sending Sends; distinct = configuration"
+const ruleDeep = "rapid: (a) a non-root node whose Process sends a nested event of its own type on the same Broker with the context it was given, to a drawn depth of 2-300; (b) 150-400 goroutines each sending an event whose non-root node re-sends once; (c) an unreferenced node whose Close sends an event is overwritten by RegisterNode, or removed; (d) the FIRST node of a pipeline re-sends an event of its own type while other goroutines register and remove a further pipeline of that type; all under the watchdog, followed by a writing probe call; oracle = every call returns within the bound; non-trivial = depth >= 130 or >= 150 concurrent re-sending Sends; distinct = configuration"
 
 type nestPayload struct{ depth int }
 
@@ -145,7 +153,7 @@ type nestPayload struct{ depth int }
 func TestC12DeepNesting(t *testing.T) {
 	sec := stats.Sec("deep_nesting", ruleDeep)
 	rapid.Check(t, func(t *rapid.T) {
-		mode := rapid.SampledFrom([]string{"nested", "nested", "concurrent", "overwrite-closer", "remove-closer"}).Draw(t, "mode")
+		mode := rapid.SampledFrom([]string{"nested", "nested", "concurrent", "overwrite-closer", "remove-closer", "root-resends-beside-writers"}).Draw(t, "mode")
 		depth := rapid.SampledFrom([]int{2, 17, 127, 128, 129, 130, 200, 300}).Draw(t, "depth")
 		callers := rapid.SampledFrom([]int{150, 260, 400}).Draw(t, "callers")
 		d := fmt.Sprintf("mode=%s depth=%d callers=%d", mode, depth, callers)
@@ -155,7 +163,13 @@ func TestC12DeepNesting(t *testing.T) {
 		root := &nodes.N{W: w, Name: "root", ID: "root", T: eventlogger.NodeTypeFilter}
 		fm := &nodes.N{W: w, Name: "fm", ID: "fm", T: eventlogger.NodeTypeFormatter}
 		sk := &nodes.N{W: w, Name: "sk", ID: "sk", T: eventlogger.NodeTypeSink}
-		_ = b.RegisterNode("root", root)
+		if mode == "root-resends-beside-writers" {
+			_ = b.RegisterNode("root", &resender{N: root, b: b, limit: 1, once: true})
+		} else {
+			_ = b.RegisterNode("root", root)
+		}
+		_ = b.RegisterNode("fm2", &nodes.N{W: w, Name: "fm2", ID: "fm2", T: eventlogger.NodeTypeFormatter})
+		_ = b.RegisterNode("sk2", &nodes.N{W: w, Name: "sk2", ID: "sk2", T: eventlogger.NodeTypeSink})
 		_ = b.RegisterNode("fm", &resender{N: fm, b: b, limit: depth, once: mode == "concurrent"})
 		_ = b.RegisterNode("sk", sk)
 		_ = b.RegisterPipeline(eventlogger.Pipeline{PipelineID: "p", EventType: "T", NodeIDs: []eventlogger.NodeID{"root", "fm", "sk"}})
@@ -181,6 +195,36 @@ func TestC12DeepNesting(t *testing.T) {
 			}
 		case "remove-closer":
 			f = func() { _ = b.RemoveNode(ctx, "closer") }
+		case "root-resends-beside-writers":
+			// the FIRST node of the pipeline sends a nested event of its own type while other goroutines register and
+			// remove a further pipeline of that type
+			f = func() {
+				var wg sync.WaitGroup
+				for i := 0; i < 4; i++ {
+					wg.Add(1)
+					go func() {
+						defer wg.Done()
+						for k := 0; k < 60; k++ {
+							_, _ = b.Send(ctx, "T", &nestPayload{})
+						}
+					}()
+				}
+				for i := 0; i < 2; i++ {
+					wg.Add(1)
+					go func(i int) {
+						defer wg.Done()
+						for k := 0; k < 150; k++ {
+							_ = b.RegisterPipeline(eventlogger.Pipeline{PipelineID: "q", EventType: "T", NodeIDs: []eventlogger.NodeID{"fm2", "sk2"}})
+							if i == 0 {
+								_ = b.RemovePipeline("T", "q")
+							} else {
+								_, _ = b.RemovePipelineAndNodes(ctx, "T", "q-none")
+							}
+						}
+					}(i)
+				}
+				wg.Wait()
+			}
 		}
 		fail := func(what string) {
 			gs := leak.BlockedInLib(leak.Dump())
@@ -207,7 +251,7 @@ func TestC12DeepNesting(t *testing.T) {
 		if !exec(func() { _, _ = b.Send(ctx, "T", &nestPayload{depth: 1 << 30}) }) {
 			fail("a plain Send after the " + mode + " call")
 		}
-		sec.Case((mode == "nested" && depth >= 130) || mode == "concurrent", d, "mode="+mode)
+		sec.Case((mode == "nested" && depth >= 130) || mode == "concurrent" || mode == "root-resends-beside-writers", d, "mode="+mode)
 	})
 }
 
